@@ -34,6 +34,8 @@ f_ctime (void)
   time_t t = (time_t)sp->u.number;
 
   cp = ctime (&t);
+  if (!cp) /* a time whose year does not fit struct tm */
+    error ("*Bad argument 1 to ctime(): time out of range.\n");
   if ((nl = strchr (cp, '\n')))
     len = nl - cp;
   else
